@@ -497,7 +497,7 @@ func checkLevels(c *fw.Ctx) {
 			}
 		}
 		c.Check(okU && okS, rule, "no power-levels event: creator 2^53-1, state_default 50 (D3)", c.P.Pos(fn.Pos()), "", fmt.Sprintf("creator level ok=%v state_default ok=%v", okU, okS))
-		c.Check(len(fw.CallsTo(fn, false, fw.NameIs("(*gmsl.PowerLevelContent).Defaults"))) == 1, rule, "no power-levels event: remaining levels take the defaults", c.P.Pos(fn.Pos()), "", "Defaults() is not applied")
+		c.Expect(len(deepCallsTo(fn, fw.NameIs("(*gmsl.PowerLevelContent).Defaults"))) >= 1, rule, "no power-levels event: remaining levels take the defaults", c.P.Pos(fn.Pos()), "", "no call of Defaults() was found in the routine or its helpers")
 	}
 	// who may read user levels directly: only userPowerLevel (and the old/new comparison helpers)
 	reach := fw.ReachableFuncs(c.Graph(), []*ssa.Function{c.P.Func("(*allowerContext).allowed")}, func(f *ssa.Function) bool { return c.P.IsRepoFunc(f) })
